@@ -1,1 +1,830 @@
 // Kani harnesses compiled inside rs-matter/src/acl.rs (module `verif_kani`).
+
+mod c05 {
+    use super::*;
+    use crate::dm::devices::test::{TEST_DEV_ATT, TEST_DEV_COMM, TEST_DEV_DET};
+
+    /// `Accessor` carries a `&Matter`; none of the functions under contract in this file looks at
+    /// it, so a constant, never mutated instance is shared by the harnesses.
+    const MATTER: Matter<'static> = Matter::new(&TEST_DEV_DET, TEST_DEV_COMM, &TEST_DEV_ATT, 0);
+
+    const NS: usize = MAX_SUBJECTS_PER_ACL_ENTRY;
+    const NT: usize = MAX_TARGETS_PER_ACL_ENTRY;
+    const NA: usize = MAX_ACCESSOR_SUBJECTS;
+
+    // ------------------------------------------------------------------ model
+
+    #[derive(Clone, Copy)]
+    struct MTarget {
+        endpoint: Option<u16>,
+        cluster: Option<u32>,
+        device_type: Option<u32>,
+    }
+
+    struct MEntry {
+        privilege: Privilege,
+        auth: AuthMode,
+        /// `None` = null list, `Some((values, len))` = list of `len` subjects
+        subjects: Option<([u64; NS], usize)>,
+        targets: Option<([MTarget; NT], usize)>,
+        fab: Option<NonZeroU8>,
+    }
+
+    struct MAccessor {
+        fab_idx: u8,
+        subjects: [u64; NA],
+        auth: Option<AuthMode>,
+    }
+
+    struct MObject<'a> {
+        endpoint: Option<u16>,
+        cluster: Option<u32>,
+        perms: Option<Access>,
+        op: Access,
+        device_types: &'a [DeviceType],
+    }
+
+    // ------------------------------------------------- reference predicates
+
+    /// A subject is a tag (CASE Authenticated Tag) when its upper half is `0xFFFF_FFFD`; the lower half
+    /// carries identifier (upper 16 bits) and version (lower 16 bits). The all-zero tag value is the
+    /// "no tag" filler of a certificate's tag list, not a tag.
+    fn spec_is_tag(s: u64) -> bool {
+        (s >> 32) == 0xFFFF_FFFD && (s & 0xFFFF_FFFF) != 0
+    }
+
+    fn spec_tag_ident(s: u64) -> u16 {
+        (s >> 16) as u16
+    }
+
+    fn spec_tag_version(s: u64) -> u16 {
+        s as u16
+    }
+
+    /// Operational node ids.
+    fn spec_is_node_id(s: u64) -> bool {
+        s >= 1 && s <= 0xFFFF_FFEF_FFFF_FFFF
+    }
+
+    /// One identity `a` of the accessor (0 = slot not used) against one entry subject `s`:
+    /// equal, or both tags with the same identifier and the accessor's version equal or higher.
+    fn spec_identity_matches(a: u64, s: u64) -> bool {
+        a != 0
+            && (a == s
+                || (spec_is_tag(a)
+                    && spec_is_tag(s)
+                    && spec_tag_ident(a) == spec_tag_ident(s)
+                    && spec_tag_version(a) >= spec_tag_version(s)))
+    }
+
+    fn spec_subject_match(acc: &[u64; NA], s: u64) -> bool {
+        let mut i = 0;
+        while i < NA {
+            if spec_identity_matches(acc[i], s) {
+                return true;
+            }
+            i += 1;
+        }
+        false
+    }
+
+    /// Entry vs. accessor: same authentication mode, the entry belongs to the accessor's own fabric
+    /// (an accessor without fabric has none), and the subject list is null, empty or holds a match.
+    fn spec_match_accessor(e: &MEntry, a: &MAccessor) -> bool {
+        let mode = a.auth == Some(e.auth);
+        let own_fabric = a.fab_idx != 0 && e.fab.map(|f| f.get()) == Some(a.fab_idx);
+        let subject = match e.subjects {
+            None => true,
+            Some((_, 0)) => true,
+            Some((ref v, n)) => {
+                let mut hit = false;
+                let mut i = 0;
+                while i < NS {
+                    if i < n && spec_subject_match(&a.subjects, v[i]) {
+                        hit = true;
+                    }
+                    i += 1;
+                }
+                hit
+            }
+        };
+        mode && own_fabric && subject
+    }
+
+    fn spec_has_device_type(dts: &[DeviceType], dt: u32) -> bool {
+        let mut i = 0;
+        while i < dts.len() {
+            if dts[i].dtype as u32 == dt {
+                return true;
+            }
+            i += 1;
+        }
+        false
+    }
+
+    fn spec_target_matches(t: &MTarget, o: &MObject) -> bool {
+        (match t.endpoint {
+            None => true,
+            Some(e) => o.endpoint == Some(e),
+        }) && (match t.cluster {
+            None => true,
+            Some(c) => o.cluster == Some(c),
+        }) && (match t.device_type {
+            None => true,
+            Some(d) => spec_has_device_type(o.device_types, d),
+        })
+    }
+
+    /// Entry vs. object: target list null, empty (both = whole node) or holding a match, and the
+    /// entry's privilege includes the one the element requires for the operation.
+    /// With the Access Control `AUXILIARY` feature a whole-node Group entry does not cover the root
+    /// endpoint (documented as Matter Core behaviour at acl.rs:951).
+    fn spec_match_object(e: &MEntry, o: &MObject, aux: bool) -> bool {
+        let whole_node = match e.targets {
+            None => true,
+            Some((_, n)) => n == 0,
+        };
+        let target = if whole_node {
+            !(aux && matches!(e.auth, AuthMode::Group) && o.endpoint == Some(0))
+        } else {
+            let (v, n) = e.targets.as_ref().map(|(v, n)| (v, *n)).unwrap();
+            let mut hit = false;
+            let mut i = 0;
+            while i < NT {
+                if i < n && spec_target_matches(&v[i], o) {
+                    hit = true;
+                }
+                i += 1;
+            }
+            hit
+        };
+        let privilege = match o.perms {
+            // contract of `Access::is_ok`: C05.is_ok.* in dm__types__privilege.rs
+            Some(p) => p.is_ok(o.op, e.privilege),
+            None => false,
+        };
+        target && privilege
+    }
+
+    fn spec_entry_allow(e: &MEntry, a: &MAccessor, o: &MObject, aux: bool) -> bool {
+        spec_match_accessor(e, a) && spec_match_object(e, o, aux)
+    }
+
+    // ---------------------------------------------------------- generators
+
+    fn any_auth() -> AuthMode {
+        let k: u8 = kani::any();
+        kani::assume(k < 3);
+        match k {
+            0 => AuthMode::Pase,
+            1 => AuthMode::Case,
+            _ => AuthMode::Group,
+        }
+    }
+
+    fn any_target() -> MTarget {
+        MTarget {
+            endpoint: if kani::any() { Some(kani::any()) } else { None },
+            cluster: if kani::any() { Some(kani::any()) } else { None },
+            device_type: if kani::any() { Some(kani::any()) } else { None },
+        }
+    }
+
+    /// Every entry: any privilege bit pattern, any mode, null / empty / 1..=capacity lists.
+    fn any_entry() -> MEntry {
+        let ns: usize = kani::any();
+        kani::assume(ns <= NS);
+        let nt: usize = kani::any();
+        kani::assume(nt <= NT);
+        MEntry {
+            privilege: Privilege::from_bits_retain(kani::any()),
+            auth: any_auth(),
+            subjects: if kani::any() { Some((kani::any(), ns)) } else { None },
+            targets: if kani::any() { Some(([any_target(), any_target(), any_target()], nt)) } else { None },
+            fab: NonZeroU8::new(kani::any()),
+        }
+    }
+
+    fn any_accessor() -> MAccessor {
+        MAccessor {
+            fab_idx: kani::any(),
+            subjects: kani::any(),
+            auth: if kani::any() { Some(any_auth()) } else { None },
+        }
+    }
+
+    fn real_entry(m: &MEntry) -> AclEntry {
+        let subjects = match m.subjects {
+            None => Nullable::none(),
+            Some((ref a, n)) => {
+                let mut v: Vec<u64, NS> = Vec::new();
+                let mut i = 0;
+                while i < NS {
+                    let _ = v.push(a[i]);
+                    i += 1;
+                }
+                // the first `n` slots are the list
+                unsafe { v.set_len(n) };
+                Nullable::some(v)
+            }
+        };
+        let targets = match m.targets {
+            None => Nullable::none(),
+            Some((ref a, n)) => {
+                let mut v: Vec<Target, NT> = Vec::new();
+                let mut i = 0;
+                while i < NT {
+                    let _ = v.push(Target::new(a[i].endpoint, a[i].cluster, a[i].device_type));
+                    i += 1;
+                }
+                unsafe { v.set_len(n) };
+                Nullable::some(v)
+            }
+        };
+        AclEntry {
+            privilege: m.privilege,
+            auth_mode: m.auth,
+            subjects,
+            targets,
+            auxiliary_type: if kani::any() { Some(AccessControlAuxiliaryTypeEnum::Groupcast) } else { None },
+            fab_idx: m.fab,
+        }
+    }
+
+    fn real_accessor<'a>(m: &MAccessor, matter: &'a Matter<'a>) -> Accessor<'a> {
+        Accessor {
+            fab_idx: m.fab_idx,
+            aux_acl_enabled: kani::any(),
+            subjects: AccessorSubjects(m.subjects),
+            auth_mode: m.auth,
+            matter,
+        }
+    }
+
+    fn real_object<'a>(m: &MObject<'a>) -> AccessDesc<'a> {
+        AccessDesc {
+            path: GenericPath::new(m.endpoint, m.cluster, if kani::any() { Some(kani::any()) } else { None }),
+            target_perms: m.perms,
+            operation: m.op,
+            device_types: m.device_types,
+        }
+    }
+
+    fn any_device_types() -> [DeviceType; 2] {
+        [
+            DeviceType { dtype: kani::any(), drev: kani::any() },
+            DeviceType { dtype: kani::any(), drev: kani::any() },
+        ]
+    }
+
+    // ------------------------------------------------------------ harnesses
+
+    /// Subject classification helpers, every 64-bit value.
+    // TIER: quick
+    // KIND: complete
+    #[kani::proof]
+    fn c05_subject_classification() {
+        let id: u64 = kani::any();
+        kani::assert(is_noc_cat(id) == spec_is_tag(id), "C05.tag.is_tag_iff_prefix_and_nonzero_value");
+        kani::assert(get_noc_cat_id(id) == spec_tag_ident(id) as u64, "C05.tag.identifier_is_bits_16_to_31");
+        kani::assert(get_noc_cat_version(id) == spec_tag_version(id) as u64, "C05.tag.version_is_bits_0_to_15");
+        kani::assert(is_node(id) == spec_is_node_id(id), "C05.tag.node_id_iff_operational_range");
+        kani::assert(!(is_noc_cat(id) && is_node(id)), "C05.tag.tag_is_never_a_node_id");
+
+        // what `gen_noc_cat` produces is read back by the accessors
+        let (i, v): (u16, u16) = (kani::any(), kani::any());
+        let s = NOC_CAT_SUBJECT_PREFIX | gen_noc_cat(i, v) as u64;
+        kani::assert(
+            get_noc_cat_id(s) == i as u64 && get_noc_cat_version(s) == v as u64,
+            "C05.tag.gen_roundtrip"
+        );
+        kani::assert(is_noc_cat(s) == (i != 0 || v != 0), "C05.tag.gen_is_tag_unless_zero");
+
+        kani::cover!(is_noc_cat(id), "a tag");
+        kani::cover!(is_node(id), "a node id");
+        kani::cover!(!is_noc_cat(id) && !is_node(id) && id != 0, "neither (group id range etc.)");
+    }
+
+    /// `AccessorSubjects::add_catid`: the tag lands in the first free slot, nothing else moves; a
+    /// full list is refused and left alone.
+    // TIER: quick
+    // KIND: complete
+    #[kani::proof]
+    #[kani::unwind(6)]
+    fn c05_subjects_add_catid() {
+        let old: [u64; NA] = kani::any();
+        let cat: u32 = kani::any();
+        let mut s = AccessorSubjects(old);
+
+        let r = s.add_catid(cat);
+
+        let mut free = NA;
+        let mut i = NA;
+        while i > 0 {
+            i -= 1;
+            if old[i] == 0 {
+                free = i;
+            }
+        }
+        let j: usize = kani::any();
+        kani::assume(j < NA);
+        kani::assert(r.is_ok() == (free < NA), "C05.add_catid.ok_iff_free_slot");
+        if free < NA {
+            kani::assert(s.0[free] == (0xFFFF_FFFD_0000_0000u64 | cat as u64), "C05.add_catid.stored_with_tag_prefix");
+            kani::assert(j == free || s.0[j] == old[j], "C05.add_catid.other_slots_untouched");
+            kani::assert(
+                cat == 0 || (is_noc_cat(s.0[free]) && get_noc_cat_id(s.0[free]) == (cat >> 16) as u64
+                    && get_noc_cat_version(s.0[free]) == (cat & 0xffff) as u64),
+                "C05.add_catid.stored_value_is_that_tag"
+            );
+        } else {
+            kani::assert(s.0[j] == old[j], "C05.add_catid.full_list_unchanged");
+            kani::assert(
+                matches!(r, Err(ref e) if e.code() == ErrorCode::ResourceExhausted),
+                "C05.add_catid.full_list_error"
+            );
+        }
+        kani::cover!(free == 0, "node id slot empty");
+        kani::cover!(free == NA - 1, "last slot");
+        kani::cover!(free == NA, "full");
+    }
+
+    /// `AccessorSubjects::matches` == the subject clause, for every accessor identity list and
+    /// every entry subject.
+    // TIER: quick
+    // KIND: complete
+    #[kani::proof]
+    #[kani::unwind(6)]
+    fn c05_subjects_matches() {
+        let acc: [u64; NA] = kani::any();
+        let s: u64 = kani::any();
+        let r = AccessorSubjects(acc).matches(s);
+
+        kani::assert(r == spec_subject_match(&acc, s), "C05.matches.iff_equal_or_tag_same_ident_version_ge");
+
+        // consequences spelled out
+        let k: usize = kani::any();
+        kani::assume(k < NA);
+        let a = acc[k];
+        kani::assert(!(a != 0 && a == s) || r, "C05.matches.equal_identity_matches");
+        if spec_is_tag(a) && spec_is_tag(s) && spec_tag_ident(a) == spec_tag_ident(s) {
+            kani::assert(!(spec_tag_version(a) >= spec_tag_version(s)) || r, "C05.matches.higher_or_equal_version_matches");
+        }
+        // a lower version alone never matches: if every identity is either unused, or a tag of
+        // that identifier with a lower version, the answer is no
+        let only_lower = {
+            let mut all = true;
+            let mut i = 0;
+            while i < NA {
+                let x = acc[i];
+                if !(x == 0
+                    || (spec_is_tag(x) && spec_is_tag(s) && spec_tag_ident(x) == spec_tag_ident(s)
+                        && spec_tag_version(x) < spec_tag_version(s)))
+                {
+                    all = false;
+                }
+                i += 1;
+            }
+            all
+        };
+        kani::assert(!only_lower || !r, "C05.matches.lower_version_refused");
+        kani::assert(!(s == 0) || !r || spec_subject_match(&acc, 0), "C05.matches.zero_subject_consistent");
+
+        kani::cover!(r && acc[0] == s, "node id equal");
+        kani::cover!(r && acc[0] != s && acc[1] != s && acc[2] != s && acc[3] != s, "tag match by version");
+        kani::cover!(!r && spec_is_tag(s) && spec_is_tag(acc[1]) && spec_tag_ident(acc[1]) == spec_tag_ident(s), "tag with lower version");
+        kani::cover!(!r && !spec_is_tag(s), "unknown node id");
+    }
+
+    /// `AclEntry::match_accessor` for every entry and every accessor.
+    // TIER: thorough
+    // KIND: complete
+    #[kani::proof]
+    #[kani::unwind(6)]
+    fn c05_entry_match_accessor() {
+        let matter = MATTER;
+        let me = any_entry();
+        let ma = any_accessor();
+        let e = real_entry(&me);
+        let a = real_accessor(&ma, &matter);
+
+        let r = e.match_accessor(&a);
+        let spec = spec_match_accessor(&me, &ma);
+
+        kani::assert(r == spec, "C05.match_accessor.iff_mode_own_fabric_subject");
+        kani::assert(!r || ma.auth == Some(me.auth), "C05.match_accessor.mode_must_agree");
+        kani::assert(
+            !r || (ma.fab_idx != 0 && me.fab.map(|f| f.get()) == Some(ma.fab_idx)),
+            "C05.match_accessor.other_fabric_never_matches"
+        );
+        kani::assert(!(ma.fab_idx == 0) || !r, "C05.match_accessor.no_fabric_never_matches");
+
+        let ns = me.subjects.map(|(_, n)| n);
+        kani::cover!(r && ns.is_none(), "null subjects");
+        kani::cover!(r && ns == Some(0), "empty subjects");
+        kani::cover!(r && ns == Some(NS), "full subject list");
+        kani::cover!(!r && ns == Some(NS) && ma.auth == Some(me.auth) && me.fab.map(|f| f.get()) == Some(ma.fab_idx), "no subject matches");
+        kani::cover!(!r && ma.auth == Some(me.auth) && ns.is_none() && ma.fab_idx != 0, "fabric mismatch only");
+        kani::cover!(!r && ma.auth.is_none(), "plain-text accessor");
+    }
+
+    /// `AclEntry::match_access_desc` for every entry and every object; the endpoint's device type
+    /// list is an input list (not a capacity), taken with 0..=2 elements.
+    // TIER: thorough
+    // KIND: bounded (device type list of the endpoint: 0..=2 elements; entry lists: full capacity)
+    #[kani::proof]
+    #[kani::unwind(6)]
+    fn c05_entry_match_access_desc() {
+        let me = any_entry();
+        let dts = any_device_types();
+        let nd: usize = kani::any();
+        kani::assume(nd <= 2);
+        let mo = MObject {
+            endpoint: if kani::any() { Some(kani::any()) } else { None },
+            cluster: if kani::any() { Some(kani::any()) } else { None },
+            perms: if kani::any() { Some(Access::from_bits_retain(kani::any())) } else { None },
+            op: if kani::any() { Access::WRITE } else { Access::READ },
+            device_types: &dts[..nd],
+        };
+        let aux: bool = kani::any();
+        let e = real_entry(&me);
+        let o = real_object(&mo);
+
+        let r = e.match_access_desc(&o, aux);
+
+        kani::assert(r == spec_match_object(&me, &mo, aux), "C05.match_access_desc.iff_target_and_privilege");
+        kani::assert(
+            !r || mo.perms.is_some_and(|p| p.is_ok(mo.op, me.privilege)),
+            "C05.match_access_desc.privilege_is_necessary"
+        );
+        kani::assert(!(mo.perms.is_none()) || !r, "C05.match_access_desc.undeclared_element_denied");
+
+        let nt = me.targets.map(|(_, n)| n);
+        kani::cover!(r && nt.is_none(), "null targets");
+        kani::cover!(r && nt == Some(0), "empty targets");
+        kani::cover!(r && nt == Some(NT) && me.targets.unwrap().0[NT - 1].device_type.is_some() && nd == 2, "device type target, last slot");
+        kani::cover!(r && nt == Some(1) && me.targets.unwrap().0[0].endpoint.is_some() && me.targets.unwrap().0[0].cluster.is_some(), "endpoint+cluster target");
+        kani::cover!(!r && nt == Some(NT) && mo.perms.is_some_and(|p| p.is_ok(mo.op, me.privilege)), "no target matches");
+        kani::cover!(!r && nt.is_none() && aux && mo.perms.is_some_and(|p| p.is_ok(mo.op, me.privilege)), "AUXILIARY: group wildcard excludes root endpoint");
+        kani::cover!(!r && nt.is_none() && !aux && mo.perms.is_some(), "privilege too low");
+    }
+
+    /// `AclEntry::allow` is the conjunction; corollary: an entry of one fabric never grants
+    /// anything to an accessor of another fabric (or of none).
+    // TIER: thorough
+    // KIND: bounded (device type list of the endpoint: 0..=2 elements; entry lists: full capacity)
+    #[kani::proof]
+    #[kani::unwind(6)]
+    fn c05_entry_allow() {
+        let matter = MATTER;
+        let me = any_entry();
+        let ma = any_accessor();
+        let dts = any_device_types();
+        let nd: usize = kani::any();
+        kani::assume(nd <= 2);
+        let mo = MObject {
+            endpoint: if kani::any() { Some(kani::any()) } else { None },
+            cluster: if kani::any() { Some(kani::any()) } else { None },
+            perms: if kani::any() { Some(Access::from_bits_retain(kani::any())) } else { None },
+            op: if kani::any() { Access::WRITE } else { Access::READ },
+            device_types: &dts[..nd],
+        };
+        let aux: bool = kani::any();
+        let e = real_entry(&me);
+        let a = real_accessor(&ma, &matter);
+        let req = AccessReq { accessor: &a, object: real_object(&mo) };
+
+        let r = e.allow(&req, aux);
+
+        kani::assert(r == spec_entry_allow(&me, &ma, &mo, aux), "C05.entry_allow.iff_accessor_and_object_match");
+        kani::assert(
+            !(me.fab.map(|f| f.get()) != Some(ma.fab_idx)) || !r,
+            "C05.entry_allow.fabric_separation"
+        );
+        kani::assert(!(ma.fab_idx == 0) || !r, "C05.entry_allow.accessor_without_fabric_denied");
+        kani::assert(!(ma.auth != Some(me.auth)) || !r, "C05.entry_allow.mode_separation");
+
+        kani::cover!(r, "granted");
+        kani::cover!(r && matches!(me.auth, AuthMode::Group), "granted to a group accessor");
+        kani::cover!(!r && spec_match_accessor(&me, &ma), "accessor matches, object does not");
+        kani::cover!(!r && spec_match_object(&me, &mo, aux), "object matches, accessor does not");
+    }
+}
+
+// Property C06 (gates): `Cluster::{check_attr_access, check_cmd_access, check_event_access}`
+// (dm/types/cluster.rs:147,193,235). The harnesses live in this file, not in dm__types__cluster.rs,
+// because the contract stand-in of `AccessReq::allow` has to look at the request's private fields.
+// `AccessReq::allow` is replaced by its contract: an arbitrary verdict chosen by the harness, which
+// records what it was asked. Callee post-condition used (from C05: `Fabrics::allow` is PASE or some
+// entry's `match_access_desc`, which implies `Access::is_ok`, which implies the declaration contains
+// the operation - C05.is_ok.undeclared_operation_denied; `allow_groupcast_auxiliary` goes through
+// `is_ok` as well): a non-PASE accessor is never allowed an operation the declaration lacks.
+mod c06 {
+    use super::*;
+    use crate::dm::devices::test::{TEST_DEV_ATT, TEST_DEV_COMM, TEST_DEV_DET};
+    use crate::dm::{Attribute, Cluster, Command, Event, Quality};
+    use crate::im::IMStatusCode;
+
+    const MATTER: Matter<'static> = Matter::new(&TEST_DEV_DET, TEST_DEV_COMM, &TEST_DEV_ATT, 0);
+
+    /// declared leaves per cluster in these harnesses
+    const NL: usize = 3;
+
+    static mut VERDICT: bool = false;
+    static mut CALLS: u8 = 0;
+    static mut SEEN_ACCESSOR: *const u8 = core::ptr::null();
+    static mut SEEN_ENDPOINT: Option<u16> = None;
+    static mut SEEN_CLUSTER: Option<u32> = None;
+    static mut SEEN_LEAF: Option<u32> = None;
+    static mut SEEN_PERMS: Option<u16> = None;
+    static mut SEEN_OP: u16 = 0;
+    static mut SEEN_DTS: *const DeviceType = core::ptr::null();
+    static mut SEEN_DTS_LEN: usize = 0;
+
+    fn allow_by_contract<'a>(req: &AccessReq<'a>) -> bool
+    where
+        'a: 'a, // early-bound, to mirror `impl<'a> AccessReq<'a>`
+    {
+        unsafe {
+            if CALLS < 2 {
+                CALLS += 1;
+            }
+            SEEN_ACCESSOR = req.accessor as *const Accessor as *const u8;
+            SEEN_ENDPOINT = req.object.path.endpoint;
+            SEEN_CLUSTER = req.object.path.cluster;
+            SEEN_LEAF = req.object.path.leaf;
+            SEEN_PERMS = req.object.target_perms.map(|p| p.bits());
+            SEEN_OP = req.object.operation.bits();
+            SEEN_DTS = req.object.device_types.as_ptr();
+            SEEN_DTS_LEN = req.object.device_types.len();
+            VERDICT
+        }
+    }
+
+    fn any_auth() -> Option<AuthMode> {
+        let k: u8 = kani::any();
+        kani::assume(k < 4);
+        match k {
+            0 => Some(AuthMode::Pase),
+            1 => Some(AuthMode::Case),
+            2 => Some(AuthMode::Group),
+            _ => None,
+        }
+    }
+
+    fn any_accessor<'a>(matter: &'a Matter<'a>) -> Accessor<'a> {
+        Accessor {
+            fab_idx: kani::any(),
+            aux_acl_enabled: kani::any(),
+            subjects: AccessorSubjects(kani::any()),
+            auth_mode: any_auth(),
+            matter,
+        }
+    }
+
+    fn any_path() -> GenericPath {
+        GenericPath::new(
+            if kani::any() { Some(kani::any()) } else { None },
+            if kani::any() { Some(kani::any()) } else { None },
+            if kani::any() { Some(kani::any()) } else { None },
+        )
+    }
+
+    fn yes_attr(_: &Attribute, _: u16, _: u32) -> bool {
+        true
+    }
+    fn yes_cmd(_: &Command, _: u16, _: u32) -> bool {
+        true
+    }
+    fn yes_event(_: &Event, _: u16, _: u32) -> bool {
+        true
+    }
+
+    /// Declaration of the first leaf with id `id` among the first `n` of `ids/acc`; empty when absent.
+    fn declared(ids: &[u32; NL], acc: &[u16; NL], n: usize, id: u32) -> Access {
+        let mut i = 0;
+        while i < NL {
+            if i < n && ids[i] == id {
+                return Access::from_bits_retain(acc[i]);
+            }
+            i += 1;
+        }
+        Access::empty()
+    }
+
+    unsafe fn reset(verdict: bool) {
+        VERDICT = verdict;
+        CALLS = 0;
+    }
+
+    /// Was `allow()` asked about exactly this accessor / path / operation / declaration / device types?
+    unsafe fn asked_about(accessor: &Accessor, path: &GenericPath, op: Access, decl: Access, dts: &[DeviceType]) -> bool {
+        SEEN_ACCESSOR == accessor as *const Accessor as *const u8
+            && SEEN_ENDPOINT == path.endpoint
+            && SEEN_CLUSTER == path.cluster
+            && SEEN_LEAF == path.leaf
+            && SEEN_PERMS == Some(decl.bits())
+            && SEEN_OP == op.bits()
+            && SEEN_DTS == dts.as_ptr()
+            && SEEN_DTS_LEN == dts.len()
+    }
+
+    /// Attribute gate, every declaration bit pattern, read and write, timed and untimed.
+    // TIER: quick
+    // KIND: bounded (cluster declares 0..=3 attributes, looked up by id; the decision itself is loop-free)
+    #[kani::proof]
+    #[kani::unwind(5)]
+    #[kani::stub(crate::acl::AccessReq::allow, allow_by_contract)]
+    fn c06_check_attr_access() {
+        let matter = MATTER;
+        let accessor = any_accessor(&matter);
+        let ids: [u32; NL] = kani::any();
+        let acc: [u16; NL] = kani::any();
+        let n: usize = kani::any();
+        kani::assume(n <= NL);
+        let attrs = [
+            Attribute::new(ids[0], Access::from_bits_retain(acc[0]), Quality::from_bits_retain(kani::any())),
+            Attribute::new(ids[1], Access::from_bits_retain(acc[1]), Quality::from_bits_retain(kani::any())),
+            Attribute::new(ids[2], Access::from_bits_retain(acc[2]), Quality::from_bits_retain(kani::any())),
+        ];
+        let cluster = Cluster::new(kani::any(), kani::any(), kani::any(), &attrs[..n], &[], &[], yes_attr, yes_cmd, yes_event);
+        let path = any_path();
+        let dts = [DeviceType { dtype: kani::any(), drev: kani::any() }];
+        let nd: usize = kani::any();
+        kani::assume(nd <= 1);
+        let (timed, write): (bool, bool) = (kani::any(), kani::any());
+        let attr_id: u32 = kani::any();
+        let verdict: bool = kani::any();
+
+        let op = if write { Access::WRITE } else { Access::READ };
+        let decl = declared(&ids, &acc, n, attr_id);
+        let pase = accessor.auth_mode == Some(AuthMode::Pase);
+        // post-condition of the callee (see the module comment)
+        kani::assume(!verdict || pase || decl.contains(op));
+        unsafe { reset(verdict) };
+
+        let r = cluster.check_attr_access(&accessor, timed, path.clone(), &dts[..nd], write, attr_id);
+
+        let calls = unsafe { CALLS };
+        let declares = decl.contains(op);
+        let timed_ok = !(write && decl.contains(Access::TIMED_ONLY)) || timed;
+        kani::assert(r.is_ok() == (declares && timed_ok && verdict), "C06.attr.ok_iff_declared_timed_and_allowed");
+        kani::assert(!r.is_ok() || (calls == 1 && verdict), "C06.attr.ok_only_through_the_access_check");
+        kani::assert(calls <= 1, "C06.attr.access_check_at_most_once");
+        kani::assert(
+            calls == 0 || unsafe { asked_about(&accessor, &path, op, decl, &dts[..nd]) },
+            "C06.attr.access_check_is_about_this_request"
+        );
+        match r {
+            Ok(()) => {}
+            Err(IMStatusCode::NeedsTimedInteraction) => {
+                kani::assert(write && !timed && decl.contains(Access::TIMED_ONLY), "C06.attr.status_needs_timed_justified");
+            }
+            Err(IMStatusCode::UnsupportedWrite) => {
+                kani::assert(write && !declares, "C06.attr.status_unsupported_write_justified");
+            }
+            Err(IMStatusCode::UnsupportedRead) => {
+                kani::assert(!write && !declares, "C06.attr.status_unsupported_read_justified");
+            }
+            Err(IMStatusCode::UnsupportedAccess) => {
+                kani::assert(calls == 1 && !verdict, "C06.attr.status_unsupported_access_justified");
+            }
+            Err(_) => {}
+        }
+        kani::assert(
+            matches!(
+                r,
+                Ok(())
+                    | Err(IMStatusCode::NeedsTimedInteraction)
+                    | Err(IMStatusCode::UnsupportedWrite)
+                    | Err(IMStatusCode::UnsupportedRead)
+                    | Err(IMStatusCode::UnsupportedAccess)
+            ),
+            "C06.attr.no_other_status"
+        );
+        // a timed-only attribute is never written outside a timed interaction
+        kani::assert(!(write && !timed && decl.contains(Access::TIMED_ONLY)) || r.is_err(), "C06.attr.timed_only_needs_timed");
+
+        kani::cover!(r.is_ok() && write && timed && decl.contains(Access::TIMED_ONLY), "timed write of a timed-only attribute");
+        kani::cover!(r.is_ok() && !write && n == NL && ids[NL - 1] == attr_id && ids[0] != attr_id && ids[1] != attr_id, "read of the last declared attribute");
+        kani::cover!(matches!(r, Err(IMStatusCode::UnsupportedAccess)), "refused by the access check");
+        kani::cover!(matches!(r, Err(IMStatusCode::UnsupportedWrite)) && n == 0, "attribute not declared at all");
+        kani::cover!(matches!(r, Err(IMStatusCode::NeedsTimedInteraction)), "needs timed");
+        kani::cover!(matches!(r, Err(IMStatusCode::UnsupportedRead)), "unsupported read");
+    }
+
+    /// Command gate.
+    // TIER: quick
+    // KIND: bounded (cluster declares 0..=3 commands, looked up by id; the decision itself is loop-free)
+    #[kani::proof]
+    #[kani::unwind(5)]
+    #[kani::stub(crate::acl::AccessReq::allow, allow_by_contract)]
+    fn c06_check_cmd_access() {
+        let matter = MATTER;
+        let accessor = any_accessor(&matter);
+        let ids: [u32; NL] = kani::any();
+        let acc: [u16; NL] = kani::any();
+        let n: usize = kani::any();
+        kani::assume(n <= NL);
+        let cmds = [
+            Command::new(ids[0], if kani::any() { Some(kani::any()) } else { None }, Access::from_bits_retain(acc[0])),
+            Command::new(ids[1], if kani::any() { Some(kani::any()) } else { None }, Access::from_bits_retain(acc[1])),
+            Command::new(ids[2], if kani::any() { Some(kani::any()) } else { None }, Access::from_bits_retain(acc[2])),
+        ];
+        let cluster = Cluster::new(kani::any(), kani::any(), kani::any(), &[], &cmds[..n], &[], yes_attr, yes_cmd, yes_event);
+        let path = any_path();
+        let dts = [DeviceType { dtype: kani::any(), drev: kani::any() }];
+        let nd: usize = kani::any();
+        kani::assume(nd <= 1);
+        let timed: bool = kani::any();
+        let cmd_id: u32 = kani::any();
+        let verdict: bool = kani::any();
+
+        let op = Access::WRITE;
+        let decl = declared(&ids, &acc, n, cmd_id);
+        let pase = accessor.auth_mode == Some(AuthMode::Pase);
+        kani::assume(!verdict || pase || decl.contains(op));
+        unsafe { reset(verdict) };
+
+        let r = cluster.check_cmd_access(&accessor, timed, path.clone(), &dts[..nd], cmd_id);
+
+        let calls = unsafe { CALLS };
+        let timed_ok = !decl.contains(Access::TIMED_ONLY) || timed;
+        let fabric_ok = !decl.contains(Access::FAB_SCOPED) || accessor.fab_idx != 0;
+        kani::assert(r.is_ok() == (timed_ok && fabric_ok && verdict), "C06.cmd.ok_iff_timed_fabric_and_allowed");
+        kani::assert(!r.is_ok() || (calls == 1 && verdict), "C06.cmd.ok_only_through_the_access_check");
+        kani::assert(calls <= 1, "C06.cmd.access_check_at_most_once");
+        kani::assert(
+            calls == 0 || unsafe { asked_about(&accessor, &path, op, decl, &dts[..nd]) },
+            "C06.cmd.access_check_is_about_this_request"
+        );
+        // the element declares the operation (task statement: "Ok iff the element declares the operation ...")
+        kani::assert(!r.is_ok() || decl.contains(op), "C06.cmd.ok_only_if_command_declared_invokable");
+        match r {
+            Ok(()) => {}
+            Err(IMStatusCode::NeedsTimedInteraction) => {
+                kani::assert(!timed && decl.contains(Access::TIMED_ONLY), "C06.cmd.status_needs_timed_justified");
+            }
+            Err(IMStatusCode::UnsupportedAccess) => {
+                kani::assert(!fabric_ok || (calls == 1 && !verdict), "C06.cmd.status_unsupported_access_justified");
+            }
+            Err(_) => {}
+        }
+        kani::assert(
+            matches!(r, Ok(()) | Err(IMStatusCode::NeedsTimedInteraction) | Err(IMStatusCode::UnsupportedAccess)),
+            "C06.cmd.no_other_status"
+        );
+        kani::assert(!(!timed && decl.contains(Access::TIMED_ONLY)) || r.is_err(), "C06.cmd.timed_only_needs_timed");
+        kani::assert(!(decl.contains(Access::FAB_SCOPED) && accessor.fab_idx == 0) || r.is_err(), "C06.cmd.fabric_scoped_needs_fabric");
+
+        kani::cover!(r.is_ok() && decl.contains(Access::FAB_SCOPED) && decl.contains(Access::TIMED_ONLY), "timed fabric-scoped command");
+        kani::cover!(r.is_err() && pase && decl.contains(Access::FAB_SCOPED) && verdict, "fabric-scoped over PASE without fabric");
+        kani::cover!(matches!(r, Err(IMStatusCode::NeedsTimedInteraction)), "needs timed");
+        kani::cover!(matches!(r, Err(IMStatusCode::UnsupportedAccess)) && fabric_ok, "refused by the access check");
+    }
+
+    /// Event gate.
+    // TIER: quick
+    // KIND: bounded (cluster declares 0..=3 events, looked up by id; the decision itself is loop-free)
+    #[kani::proof]
+    #[kani::unwind(5)]
+    #[kani::stub(crate::acl::AccessReq::allow, allow_by_contract)]
+    fn c06_check_event_access() {
+        let matter = MATTER;
+        let accessor = any_accessor(&matter);
+        let ids: [u32; NL] = kani::any();
+        let acc: [u16; NL] = kani::any();
+        let n: usize = kani::any();
+        kani::assume(n <= NL);
+        let events = [
+            Event::new(ids[0], Access::from_bits_retain(acc[0])),
+            Event::new(ids[1], Access::from_bits_retain(acc[1])),
+            Event::new(ids[2], Access::from_bits_retain(acc[2])),
+        ];
+        let cluster = Cluster::new(kani::any(), kani::any(), kani::any(), &[], &[], &events[..n], yes_attr, yes_cmd, yes_event);
+        let path = any_path();
+        let dts = [DeviceType { dtype: kani::any(), drev: kani::any() }];
+        let nd: usize = kani::any();
+        kani::assume(nd <= 1);
+        let event_id: u32 = kani::any();
+        let verdict: bool = kani::any();
+
+        let op = Access::READ;
+        let decl = declared(&ids, &acc, n, event_id);
+        let pase = accessor.auth_mode == Some(AuthMode::Pase);
+        kani::assume(!verdict || pase || decl.contains(op));
+        unsafe { reset(verdict) };
+
+        let r = cluster.check_event_access(&accessor, path.clone(), &dts[..nd], event_id);
+
+        let calls = unsafe { CALLS };
+        kani::assert(r.is_ok() == verdict, "C06.event.ok_iff_allowed");
+        kani::assert(calls == 1, "C06.event.access_check_exactly_once");
+        kani::assert(unsafe { asked_about(&accessor, &path, op, decl, &dts[..nd]) }, "C06.event.access_check_is_about_this_request");
+        kani::assert(!r.is_ok() || decl.contains(op), "C06.event.ok_only_if_event_declared_readable");
+        kani::assert(r.is_ok() || matches!(r, Err(IMStatusCode::UnsupportedAccess)), "C06.event.only_status_is_unsupported_access");
+
+        kani::cover!(r.is_ok(), "allowed");
+        kani::cover!(r.is_err() && decl.contains(op), "declared, refused");
+    }
+}
